@@ -5,6 +5,7 @@ pub mod req;
 pub mod ctl;
 pub mod conn;
 pub mod stream;
+pub mod net;
 use crate::rng::Rng;
 
 pub fn group_salt(group: &str) -> u64 { group.bytes().fold(0xcbf29ce484222325u64, |h, b| (h ^ b as u64).wrapping_mul(0x100000001b3)) }
@@ -26,6 +27,8 @@ pub fn gen(group: &str, rng: &mut Rng, n: usize, out: &mut Vec<String>) {
         "msgid" => conn::gen_msgid(rng, n, out),
         "stream" => stream::gen_stream(rng, n, out),
         "paged" => stream::gen_paged(rng, n, out),
+        "setup" => net::gen_setup(rng, n, out),
+        "tls" => net::gen_tls(rng, n, out),
         _ => panic!("unknown group {}", group),
     }
 }
@@ -38,6 +41,8 @@ pub fn run(lane: &str, args: &[&str]) -> (String, Option<String>) {
         "conn" => conn::run(lane, args),
         "msgid" => conn::run_msgid(args),
         "stream" | "paged" => stream::run(lane, args),
+        "setup" | "setupx" => net::run_setup(lane, args),
+        "tls" => net::run_tls(args),
         "ctl" | "exop" | "cresp" => ctl::run(lane, args),
         "filter" | "esc" | "utf8" | "entry" | "result" | "helpers" | "url" => textl::run(lane, args),
         _ => ("UNKNOWN-LANE".into(), None),
